@@ -202,8 +202,33 @@ structure IPM where
   whitelist : IPKey → Option IPRecord
   bkeys : List IPKey   -- keys ever inserted into `blacklist` (iteration domain of `range list`)
   wkeys : List IPKey
+  /-- the records persisted in the shared storage (`saveToStorage` / `removeFromStorage`), which a
+  manager created later over the same storage loads (`loadFromStorage`).  The storage's own TTL only
+  drops records that are already expired; those are inert once loaded, so it is not modelled. -/
+  sblack : IPKey → Option IPRecord
+  swhite : IPKey → Option IPRecord
 
-def IPM.empty : IPM := ⟨fun _ => none, fun _ => none, [], []⟩
+def IPM.empty : IPM := ⟨fun _ => none, fun _ => none, [], [], fun _ => none, fun _ => none⟩
+
+/-- `removeFromStorage` for exactly the keys that a step deleted from the in-memory list. -/
+def syncDel (old new s : IPKey → Option IPRecord) : IPKey → Option IPRecord :=
+  fun k => if (old k).isSome && (new k).isNone then none else s k
+
+/-- in-memory blacklist after `removeExpiredFromBlacklist(ip)` -/
+def asyncRemoveList (t ip : Nat) (bl : IPKey → Option IPRecord) : IPKey → Option IPRecord :=
+  fun k =>
+    if k = ⟨ip, none⟩ then
+      (match bl k with
+       | some r => if security.IPRecord.isExpired t r then none else some r
+       | none => none)
+    else bl k
+
+/-- in-memory blacklist after `cleanup()` -/
+def cleanupList (t : Nat) (bl : IPKey → Option IPRecord) : IPKey → Option IPRecord :=
+  fun k =>
+    match bl k with
+    | some r => if timeIsZero r.ExpiresAt then some r else if timeAfter t r.ExpiresAt then none else some r
+    | none => none
 
 /-- The records `findInList` looks at, in its order: the exact key first, then the CIDR keys. -/
 def candidates (ip : Nat) (list : IPKey → Option IPRecord) (keys : List IPKey) : List IPRecord :=
@@ -227,6 +252,9 @@ inductive IEv
   | addBlack (k : IPKey) (dur : Nat) | removeBlack (k : IPKey)
   | addWhite (k : IPKey) | removeWhite (k : IPKey)
   | isAllowed (ip : Nat) | asyncRemove (ip : Nat) | cleanup
+  /-- a new `IPManager` is created over the same storage (node restart, another node taking over)
+  and answers from now on: `NewIPManager` → `loadFromStorage` -/
+  | restart
 deriving Repr
 
 def upd (m : IPKey → Option α) (k : IPKey) (v : Option α) : IPKey → Option α :=
@@ -235,23 +263,25 @@ def upd (m : IPKey → Option α) (k : IPKey) (v : Option α) : IPKey → Option
 def ipmStep (t : Nat) (e : IEv) (m : IPM) : IPM × Option Bool :=
   match e with
   | .addBlack k dur =>
-    ({ m with blacklist := upd m.blacklist k (some ⟨t, if dur > 0 then t + dur else 0⟩), bkeys := k :: m.bkeys }, none)
-  | .removeBlack k => ({ m with blacklist := upd m.blacklist k none }, none)
-  | .addWhite k => ({ m with whitelist := upd m.whitelist k (some ⟨t, 0⟩), wkeys := k :: m.wkeys }, none)
-  | .removeWhite k => ({ m with whitelist := upd m.whitelist k none }, none)
+    ({ m with blacklist := upd m.blacklist k (some ⟨t, if dur > 0 then t + dur else 0⟩), bkeys := k :: m.bkeys,
+              sblack := upd m.sblack k (some ⟨t, if dur > 0 then t + dur else 0⟩) }, none)
+  | .removeBlack k =>
+    ({ m with blacklist := upd m.blacklist k none,
+              sblack := syncDel m.blacklist (upd m.blacklist k none) m.sblack }, none)
+  | .addWhite k =>
+    ({ m with whitelist := upd m.whitelist k (some ⟨t, 0⟩), wkeys := k :: m.wkeys,
+              swhite := upd m.swhite k (some ⟨t, 0⟩) }, none)
+  | .removeWhite k =>
+    ({ m with whitelist := upd m.whitelist k none,
+              swhite := syncDel m.whitelist (upd m.whitelist k none) m.swhite }, none)
   | .isAllowed ip => (m, some (isAllowed t ip m))
   | .asyncRemove ip =>
-    ({ m with blacklist := fun k =>
-        if k = ⟨ip, none⟩ then
-          (match m.blacklist k with
-           | some r => if security.IPRecord.isExpired t r then none else some r
-           | none => none)
-        else m.blacklist k }, none)
+    ({ m with blacklist := asyncRemoveList t ip m.blacklist,
+              sblack := syncDel m.blacklist (asyncRemoveList t ip m.blacklist) m.sblack }, none)
   | .cleanup =>
-    ({ m with blacklist := fun k =>
-        match m.blacklist k with
-        | some r => if timeIsZero r.ExpiresAt then some r else if timeAfter t r.ExpiresAt then none else some r
-        | none => none }, none)
+    ({ m with blacklist := cleanupList t m.blacklist,
+              sblack := syncDel m.blacklist (cleanupList t m.blacklist) m.sblack }, none)
+  | .restart => ({ m with blacklist := m.sblack, whitelist := m.swhite }, none)
 
 def ipmRun : List (Nat × IEv) → IPM → List (Option Bool)
   | [], _ => []
